@@ -72,6 +72,7 @@ Proof.
   - constructor; cbn; [exact A|apply inv_stat_change; exact B|exact C].
   - constructor; cbn; [exact A|apply inv_wq_change; exact B|exact C].
   - constructor; cbn; [exact A|apply inv_wq_change; exact B|exact C].
+  - constructor; cbn; [exact A|apply inv_wq_change; exact B|exact C].
   - pose proof (inv_list_validators (s_val s) B) as H. destruct (list_validators (s_val s)) as [v1 l]. cbn [fst] in *.
     constructor; cbn; [exact A|exact H|exact C].
   - constructor; cbn; [exact A|exact B|apply inv_add_srec; exact C].
@@ -94,6 +95,34 @@ Proof.
   destruct (vl_iroot_spec de (s_val s) B) as (B1 & B2).
   destruct (sk_iroot_spec (s_stk s) C) as (C1 & C2 & C3 & _).
   split; constructor; cbn [iroot s_acc s_val s_stk]; try assumption. split; assumption.
+Qed.
+
+(* IntermediateRoot on a state that has nothing left to write is the identity on the tries
+   and on everything the state shows: it writes the live index, statistics and withdraw
+   queue (unconditionally, as the code does) and they are what the trie already holds *)
+Lemma iroot_idempotent d de s : Flushed s ->
+  roots (iroot d de s) = roots s /\ state_eq d (iroot d de s) d s /\ Flushed (iroot d de s).
+Proof.
+  intros [[Hj Hp] [Vd Vj Vi Vs Vq] Sd Sp].
+  assert (Ea : ac_iroot d de (s_acc s) = s_acc s).
+  { unfold ac_iroot, ac_finalise. rewrite Hj. cbn [fold_left ac_pending]. rewrite Hp. cbn [fold_left].
+    destruct (s_acc s); cbn in *; subst; reflexivity. }
+  assert (Es : sk_iroot (s_stk s) = s_stk s).
+  { unfold sk_iroot. rewrite Sd. cbn [fold_left]. rewrite Sp. destruct (s_stk s); cbn in *; subst; reflexivity. }
+  assert (Ev : vl_iroot de (s_val s) =
+               mkVals (vl_trie (s_val s)) (vl_objs (s_val s)) [] [] (vl_index (s_val s)) (vl_stat (s_val s))
+                      (vl_mod (s_val s)) (Some (get_wq (s_val s)))).
+  { unfold vl_iroot, vl_finalise. rewrite Vj. cbn [filter fold_left vl_dirty vl_trie vl_objs vl_jd vl_index vl_stat vl_mod vl_wq].
+    rewrite Vd. cbn [fold_left vl_trie vl_objs vl_jd vl_index vl_stat vl_mod].
+    assert (Eq : get_wq (mkVals (vl_trie (s_val s)) (vl_objs (s_val s)) [] [] (vl_index (s_val s)) (vl_stat (s_val s))
+                               (vl_mod (s_val s)) (vl_wq (s_val s))) = get_wq (s_val s)) by reflexivity.
+    rewrite Eq. f_equal. destruct (vl_trie (s_val s)); cbn in *. rewrite Vi, Vs, Vq. reflexivity. }
+  unfold iroot, roots. cbn [s_acc s_val s_stk]. rewrite Ea, Es, Ev. cbn [vl_trie].
+  split; [reflexivity|]. split.
+  - split; [split; reflexivity|]. split; [|split; reflexivity]. split; [|split; reflexivity].
+    intros a. reflexivity.
+  - constructor; cbn [s_acc s_val s_stk]; [split; assumption| |assumption|assumption].
+    constructor; cbn [vl_dirty vl_jd vl_trie vl_index vl_stat]; try reflexivity; assumption.
 Qed.
 
 (* ---- roots are a function of the content ------------------------------------------------------ *)
